@@ -1,7 +1,7 @@
 SPECIFICATION Spec
 CONSTANTS
   NU = 1
-  NS = 2
+  NS = 1
   UCalls <- MC_UCalls
   Subs <- MC_Subs
   BatchOf <- MC_BatchOf
@@ -14,12 +14,12 @@ CONSTANTS
   AtomicWrites = TRUE
   WriteLock = FALSE
   AtomicDown = TRUE
-  CompleteOnDownError = FALSE
-  CloseBeforeSwap = TRUE
+  CompleteOnDownError = TRUE
+  CloseBeforeSwap = FALSE
   MaxFaults = 1
   MaxCancels = 1
   AllowClose = TRUE
   AllowReorder = TRUE
 VIEW View
-INVARIANTS TypeOK AtMostOnce ExactlyOnceWhenDown RefusedAfterDone ConnClosedWhenDown OkOnlyIfAnswered
+INVARIANTS ExactlyOnceWhenDown
 CHECK_DEADLOCK FALSE
